@@ -73,8 +73,11 @@ def make_epoch_workload(seed):
                     lines.append("op get %s" % hx(k))
                 elif x < 0.5:
                     lines.append("op remove %s" % hx(k))
-                elif x < 0.75:
+                elif x < 0.70:
                     lines.append("op put %s %s 0" % (hx(k), hx(b"v%d_%d_%d_long_enough" % (t, sess, i))))
+                elif x < 0.75:
+                    # overwrite with an inline (pointer-sized) value: the old heap value must be retired too
+                    lines.append("op puti %s %x" % (hx(k), 0x1000 + t * 16 + i))
                 elif x < 0.9:
                     lines.append("op sleep_epochs %d" % r.choice([1, 2, 4]))
                 else:
